@@ -2,7 +2,4 @@
 /// `u32::div_ceil`: ceiling division; panics (= does not return) on a zero divisor
 pub assume_specification [u32::div_ceil] (a: u32, rhs: u32) -> (r: u32)
     ensures rhs != 0, r as int == (a as int + rhs as int - 1) / (rhs as int);
-/// `Option::map_or`: the default on None, the closure's result on Some
-pub assume_specification<T, U, F: FnOnce(T) -> U> [Option::<T>::map_or] (o: Option<T>, default: U, f: F) -> (r: U)
-    requires o.is_some() ==> f.requires((o.unwrap(),)),
-    ensures o.is_none() ==> r == default, o.is_some() ==> f.ensures((o.unwrap(),), r);
+// (`Option::map_or` is specified in model/stdauto.rs)
